@@ -31,6 +31,7 @@ class Profile:
         self.p_same_dest = 0.15          # request the state that is (probably) active
         self.fills = ["00", "ff", "a5", "5a"]
         self.p_logger_at_construct = 0.5
+        self.p_pair = 0.2                # correlated table entries: two recipients of the same phase of the same call both act
         self.__dict__.update(kw)
     def with_(self, **kw):
         p = Profile(**self.__dict__)
@@ -212,8 +213,32 @@ def gen_ops(rng, c, prof):
             else: emit("destroy %d" % i); construct(i)
     return ops
 
+def gen_pair(rng, c, prof):
+    """Two entries for the same method of the same call: the root (or an injected base) does one thing and the state itself another, so
+    that what one recipient does (report a task status, make a request, edit the plan) meets what the next recipient does in that very phase."""
+    n = c["n"]
+    meth = rng.choice(PHASES + PHASES + GUARDS)
+    kind = "guard" if meth in GUARDS else "full"
+    def act(for_root):
+        r = rng.random()
+        if c["plans"] and r < (0.55 if for_root else 0.3): return "%s %s" % (rng.choice(["succeed", "fail"]), rng.randrange(n) if (for_root or rng.random() < 0.4) else "self")
+        if c["plans"] and r < 0.65: return "plan.append %d %d" % (rng.randrange(n), rng.randrange(n))
+        if kind == "guard" and r < 0.8: return "cancel"
+        if c["payload"] and r < 0.9: return "changeWith %d %d" % (rng.randrange(n), rng.randrange(256))
+        return "change %d" % rng.randrange(n)
+    first = None
+    if c["head"] and rng.random() < 0.7 and not (kind == "guard" and meth == "exitGuard"):      # (the root's exit guard is never consulted)
+        first = "tab * R own %s  : %s" % (meth, act(True))
+    elif c["inj_state"]:
+        first = "tab * S* I%d %s  : %s" % (rng.randrange(c["inj_state"]), meth, act(True))
+    if first is None: return []
+    who = "S*" if rng.random() < 0.6 else "S%d" % rng.randrange(n)
+    return [first, "tab * %s own %s  : %s" % (who, meth, act(False))]
+
 def gen_script(rng, c, prof):
     lines = [cfgmod.cfg_line(c)]
+    if rng.random() < prof.p_pair:
+        lines += gen_pair(rng, c, prof)
     for _ in range(rng.randint(*prof.n_tab)):
         lines.append(gen_tab(rng, c, prof))
     lines += gen_ops(rng, c, prof)
